@@ -909,3 +909,81 @@ Section BfsProps.
       lia.
   Qed.
 End BfsProps.
+
+(* ====================================================================== *)
+(* 9. depth-first: the result is the pre-order of the recursive DFS          *)
+(* ====================================================================== *)
+
+Section DfsProps.
+  Variable g : graph.
+  Hypothesis Hok : adj_ok g.
+  Variable rv : bool.
+
+  (* several iterations of the eager loop *)
+  Inductive steps : list (Z * Z) -> list (Z * Z) -> list (Z * Z) -> list (Z * Z) -> Prop :=
+  | steps_refl : forall E acc, steps E acc E acc
+  | steps_cons : forall E acc E1 acc1 E2 acc2,
+      spec_step g DFS rv E acc = Some (E1, acc1) -> steps E1 acc1 E2 acc2 -> steps E acc E2 acc2.
+
+  Lemma steps_trans : forall E acc E1 acc1 E2 acc2,
+    steps E acc E1 acc1 -> steps E1 acc1 E2 acc2 -> steps E acc E2 acc2.
+  Proof. intros E acc E1 acc1 E2 acc2 H. induction H; intros H2; [exact H2|]. econstructor; eauto. Qed.
+
+  Lemma run_steps : forall E acc E' acc', steps E acc E' acc' ->
+    forall f r, spec_run g DFS rv f E acc = Some r -> exists f', spec_run g DFS rv f' E' acc' = Some r.
+  Proof.
+    intros E acc E' acc' H. induction H as [|E acc E1 acc1 E2 acc2 Hs _ IH]; intros f r Hr; [exists f; exact Hr|].
+    destruct f as [|f]; cbn [spec_run] in Hr; [discriminate|]. rewrite Hs in Hr. apply (IH f r Hr).
+  Qed.
+
+  Definition todo (A : list Z) : nat := unvis_weight g rv (elements g) A.
+
+  Lemma todo_mark : forall A x, elem_id g x = true -> inb x A = false -> (todo (x :: A) < todo A)%nat.
+  Proof.
+    intros A x Hx Hv. unfold todo.
+    pose proof (unvis_weight_mark g rv (elements g) A x (elem_in_elements g x Hx) Hv) as H.
+    unfold weight in H. lia.
+  Qed.
+
+  Lemma dfs_sim : forall fr x k rest acc, elem_id g x = true -> (todo (map fst acc) < fr)%nat ->
+    exists acc', steps ((x, k) :: rest) acc rest acc' /\
+                 map fst acc' = dfs_rec g rv fr x (map fst acc) /\
+                 (todo (map fst acc') <= todo (map fst acc))%nat.
+  Proof.
+    induction fr as [|fr IH]; intros x k rest acc Hx Hfr; [lia|]. cbn [dfs_rec].
+    destruct (inb x (map fst acc)) eqn:Ev.
+    - exists acc. split; [|split; [reflexivity | lia]].
+      econstructor; [|constructor]. cbn [spec_step]. rewrite Ev. reflexivity.
+    - (* the successors, one after the other *)
+      assert (Hfold : forall ys, (forall y, In y ys -> elem_id g y = true) ->
+                forall acc1, (todo (map fst acc1) < fr)%nat ->
+                exists acc2, steps (map (fun y => (y, k + 1)) ys ++ rest) acc1 rest acc2 /\
+                             map fst acc2 = fold_left (fun s y => dfs_rec g rv fr y s) ys (map fst acc1) /\
+                             (todo (map fst acc2) <= todo (map fst acc1))%nat).
+      { induction ys as [|y ys IHys]; intros Hys acc1 Hacc1.
+        - exists acc1. split; [constructor | split; [reflexivity | lia]].
+        - cbn [map app fold_left].
+          destruct (IH y (k + 1) (map (fun y => (y, k + 1)) ys ++ rest) acc1 (Hys y (or_introl eq_refl)) Hacc1)
+            as (acc1' & Hst1 & Hm1 & Ht1).
+          destruct (IHys (fun z Hz => Hys z (or_intror Hz)) acc1' ltac:(lia)) as (acc2 & Hst2 & Hm2 & Ht2).
+          exists acc2. split; [eapply steps_trans; eassumption|]. split; [rewrite Hm2, Hm1; reflexivity | lia]. }
+      pose proof (todo_mark (map fst acc) x Hx Ev) as Hmark.
+      destruct (Hfold (succs g rv x) (fun y Hy => succs_elem g Hok rv x y Hx Hy) ((x, k) :: acc)) as (acc2 & Hst & Hm & Ht).
+      { cbn [map fst]. lia. }
+      exists acc2. split; [|split].
+      + econstructor; [|exact Hst]. cbn [spec_step]. rewrite Ev. reflexivity.
+      + exact Hm.
+      + cbn [map fst] in Ht. lia.
+  Qed.
+
+  Theorem dfs_spec_preorder : forall o fr, elem_id g o = true -> (search_fuel g <= fr)%nat ->
+    map fst (search_spec g DFS rv o) = rev (dfs_rec g rv fr o []).
+  Proof.
+    intros o fr Ho Hfr. pose proof (search_spec_run g Hok DFS rv o Ho) as Hrun.
+    destruct (dfs_sim fr o 0 [] [] Ho) as (acc' & Hst & Hm & _).
+    { pose proof (mu_init g Hok rv o) as H. unfold mu in H. cbn [length map] in H. unfold todo. cbn [map]. lia. }
+    destruct (run_steps _ _ _ _ Hst _ _ Hrun) as (f' & Hf').
+    destruct f' as [|f']; cbn [spec_run spec_step] in Hf'; [discriminate|]. injection Hf' as Hf'.
+    rewrite <- Hf', map_rev, Hm. reflexivity.
+  Qed.
+End DfsProps.
